@@ -63,6 +63,9 @@ CHECKS["C15"] = dict(design="4 C14/C15", technique="TLA+ spec (merge law over ve
 CHECKS["C16"] = dict(design="4 C16", technique="TLA+ spec (VecCache) model-checked by TLC; every edge of its state graph replayed on the real cache through the synchronous expiry hook with engine-side counters; concurrent searchers with the real monitor under the race detector",
     note=VEC_NOTE + " Handles are closed before the segment; eviction is allowed but never required.",
     text="VecCache.tla models cache entry (generation, references, ageing), handles with their own exclusion bitmaps, the engine's live set, asynchronous releases and segment close; TLC checks HandleSafe, ClosedOnce, NoLeak and RefsExact over all sequences of open(except, filtered) / search / close-handle / expiry tick / segment close up to 5 (quick) / 7 (thorough) steps for every pair of exclusion bitmaps, and emits every edge as a walk with the expected search results (TopKOK-checked). The harness replays the walks through InterpretVectorIndex / Search / SearchWithFilter / Close, VerifVecCacheTick and Segment.Close on in-memory and mmap segments, comparing results and the double's counters (used after release, released twice, live after close with a bounded wait) after every step; then 6 goroutines search concurrently with the monitor at 1 ms under -race.")
+CHECKS["C19"] = dict(design="4 C19", technique="TLA+ spec (OutFile with engine-call steps: EngineSurfaces, ErrMeansNoFile; TraceLife TrEngFail) + failure plans enumerated from the engine double's call log, executed on the real build / merge, validated by TLC",
+    note=VEC_NOTE + " Only failures reported through the go-faiss API can be injected.",
+    text="For flat and clustered (>= 1000 vectors: SetDirectMap, Train) scenarios the fault-free build and merge are run once and the double's call log gives, per engine operation (IndexFactory, SetDirectMap, Train, AddWithIDs, WriteIndexIntoBuffer, ReadIndexFromBuffer, ReconstructBatch), every n that occurs; each n-th call is made to fail in turn. TLC requires for every plan: an error is returned, no file is left, the double's live-index count returns to its baseline (bounded wait); an operation that reports success is validated completely (vector search answers of the result against TopKOK), so silently missing vectors are a mismatch. OutFile.tla's engine-call steps are model-checked (EngineSurfaces).")
 HOOK_COMMITS = ["f76ac2a", "d66d9b6"]
 
 NA = {}
